@@ -1964,3 +1964,54 @@ class InitArray(Contract):
             yield 'remainder-size', size is not None and size == lst_get(ranks, zi(i)) * P(zi(i), order) * P(order + zi(i), 2 * order)
             yield 'remainder-fresh', y.buf >= V.mark0
         return inv
+
+
+@register
+class ResidualError(Contract):
+    """residual_error(operator, lhs, rhs): the residual norm of A x - b accumulated core by core.  Structural clauses: every
+    tensordot / append / reshape / SVD is shape-consistent for all orders, dimensions and ranks, the result is bound on every
+    path (it used not to be for order 1), nothing is written."""
+    name, func, cls = 'fn:residual_error', 'residual_error', None
+    props = ('C01', 'C06')
+    KEY = 'i in range(operator.order)'
+    loop_ordinals = {0: KEY}
+    # M (the accumulated remainder) is first bound in the iteration i == 0 and read in every later one
+    @staticmethod
+    def _mkM(state):
+        a = SArr([fresh('M0'), fresh('M1')], fresh('Mcx', 'bool'), fresh('Mbuf'), True)
+        state.assume(z3.And(a.shape[0] >= 0, a.shape[1] >= 0), model=True)      # array dimensions are non-negative
+        return a
+    loop_carried = {KEY: {'M': lambda state: ResidualError._mkM(state)}}
+
+    def setup(self, ex, state, inst):
+        m0 = ex.ctx.mark0
+        op = mk_tt(state, 'operator', m0)
+        x = mk_tt(state, 'lhs', m0, order=op.order)
+        b = mk_tt(state, 'rhs', m0, order=op.order)
+        return {'operator': op, 'lhs': x, 'rhs': b}
+
+    def requires(self, S):
+        op, x, b = S.a['operator'], S.a['lhs'], S.a['rhs']
+        d = zi(op.order)
+        yield 'orders-equal', z3.And(zi(x.order) == d, zi(b.order) == d)
+        yield 'dims-match', z3.And(same_ints(x.row_dims, op.col_dims, d), same_ints(b.row_dims, op.row_dims, d),
+                                   FA(0, d, lambda j: z3.And(lst_get(x.col_dims, j) == 1, lst_get(b.col_dims, j) == 1)))
+        yield 'boundary-ranks-1', z3.And(boundary_one(op), boundary_one(x), boundary_one(b))
+
+    def ensures(self, S, res):
+        yield 'returns-scalar', isinstance(res, SNum) or (isinstance(res, SArr) and len(res.shape) == 0)
+
+    def canary(self, S, res):
+        return z3.BoolVal(False)
+
+    def invariant(self, key, inst):
+        if key != self.KEY:
+            return None
+
+        def inv(V, i, k):
+            op, x, b = V.old('operator'), V.old('lhs'), V.old('rhs')
+            if V.has('M'):
+                M = V['M']
+                if isinstance(M, SArr) and len(M.shape) == 2:
+                    yield 'M', z3.Implies(z3.And(zi(i) >= 1, zi(i) < zi(op.order)), M.shape[1] == lst_get(op.ranks, zi(i)) * lst_get(x.ranks, zi(i)) + lst_get(b.ranks, zi(i)))
+        return inv
